@@ -2,6 +2,7 @@
 get_record flags, symlink targets, file_mode, and every file's bytes through
 both read routes."""
 import io
+import zlib
 import struct
 
 from . import content
@@ -104,6 +105,46 @@ def read_both(iso, kw, pexc):
     return d1, None
 
 
+def facade_pass(iso, ns, arg, getter, v, hashes, anomalies, pexc):
+    """Third read route: the per-namespace facade objects (pycdlib/facade.py) must show the same names as
+    the direct walk, hand out the same records and - for a fixed half of the files, chosen by a hash of the
+    path so that no PRNG stream is touched - the same bytes as get_file_from_iso_fp."""
+    tag = {'facade_' + ns: '/'}
+    try:
+        fac = getter()
+        seen = set()
+        for dirpath, dirs, files in fac.walk('/'):
+            for d in dirs:
+                seen.add((join(dirpath, d), True))
+            for f in files:
+                seen.add((join(dirpath, f), False))
+    except pexc.PyCdlibException as e:
+        anomalies.append((tag, ('facade-walk-exception', type(e).__name__, str(e)[:60])))
+        return
+    direct = set((p, v[p][0] == 'dir') for p in v if p != '/')
+    if seen != direct:
+        diff = sorted(seen ^ direct)
+        anomalies.append((tag, ('facade-names-differ', len(diff), diff[0])))
+        return
+    for (a, p), (ln, crc) in sorted(hashes.items()):
+        if a != arg or zlib.crc32(p.encode('utf-8')) & 1:
+            continue
+        one = {'facade_' + ns: p}
+        try:
+            if fac.get_record(p) is not iso.get_record(**{arg: p}):
+                anomalies.append((one, ('facade-record-differs',)))
+            o = io.BytesIO()
+            fac.get_file_from_iso_fp(o, p)
+            d = o.getvalue()
+        except pexc.PyCdlibInvalidInput as e:
+            if ln == 0 and ('without data' in str(e) or 'empty UDF File Entry' in str(e)):
+                continue
+            anomalies.append((one, ('facade-read-exception', type(e).__name__, str(e)[:60])))
+            continue
+        if (len(d), zlib.crc32(d)) != (ln, crc):
+            anomalies.append((one, ('facade-bytes-differ', ln, len(d))))
+
+
 def join(parent, name):
     return (parent if parent != '/' else '') + '/' + name
 
@@ -114,6 +155,7 @@ def api_view(iso, model, pexc, read_content=True):
     res = Resolver(model)
     anomalies = []
     out = {}
+    hashes = {}
 
     def fkey(kw):
         if not read_content:
@@ -121,6 +163,8 @@ def api_view(iso, model, pexc, read_content=True):
         data, mm = read_both(iso, kw, pexc)
         if mm:
             anomalies.append((kw, mm))
+        (arg, path), = kw.items()
+        hashes[(arg, path)] = (len(data), zlib.crc32(data))
         return res.key(data)
 
     # ISO9660
@@ -143,6 +187,7 @@ def api_view(iso, model, pexc, read_content=True):
             else:
                 v[p] = ('file', bool(rec.file_flags & 1), fkey({'iso_path': p}))
     out['iso'] = v
+    facade_pass(iso, 'iso', 'iso_path', iso.get_iso9660_facade, v, hashes, anomalies, pexc)
     if iso.has_rock_ridge():
         v = {}
         for dirpath, dirs, files in iso.walk(rr_path='/'):
@@ -160,6 +205,7 @@ def api_view(iso, model, pexc, read_content=True):
                 else:
                     v[p] = ('file', fkey({'rr_path': p}), None, mode)
         out['rr'] = v
+        facade_pass(iso, 'rr', 'rr_path', iso.get_rock_ridge_facade, v, hashes, anomalies, pexc)
     if iso.has_joliet():
         v = {}
         for dirpath, dirs, files in iso.walk(joliet_path='/'):
@@ -174,6 +220,7 @@ def api_view(iso, model, pexc, read_content=True):
                 rec = iso.get_record(joliet_path=p)
                 v[p] = ('file', bool(rec.file_flags & 1), fkey({'joliet_path': p}))
         out['joliet'] = v
+        facade_pass(iso, 'joliet', 'joliet_path', iso.get_joliet_facade, v, hashes, anomalies, pexc)
     if iso.has_udf():
         v = {}
         for dirpath, dirs, files in iso.walk(udf_path='/'):
@@ -197,6 +244,7 @@ def api_view(iso, model, pexc, read_content=True):
                 else:
                     v[p] = ('file', fkey({'udf_path': p}), None)
         out['udf'] = v
+        facade_pass(iso, 'udf', 'udf_path', iso.get_udf_facade, v, hashes, anomalies, pexc)
     return out, anomalies
 
 
